@@ -1031,6 +1031,10 @@ def run_case(ctx, case, model_out=None):
             out = (prop @ rho.reshape(-1)).reshape(D, D)
             # round-off of the propagator scales with its norm (it grows for non-Hermitian H)
             ptol = 1e-9 * max(1.0, float(np.linalg.norm(prop, 2))) * max(1.0, float(np.linalg.norm(case["t"] * Lm, 2)))
+            # round-off of the generator itself: its pieces (size `scale`) may cancel (H = c*1 with |c| = 1e8 gives L = 0
+            # up to noise of size eps*scale, which is neither Hermiticity- nor trace-preserving); that noise enters the
+            # propagated state with the factor t * ||prop||
+            ptol = max(ptol, 1e-13 * abs(case["t"]) * scale * max(1.0, float(np.linalg.norm(prop, 2))))
             if abs(np.trace(out) - 1) > ptol:
                 probs.append(f"tr exp(-itL)rho = {np.trace(out):.6g} (tol {ptol:.1e})")
             if case["herm_h"]:
